@@ -292,6 +292,18 @@ def scenarios_c14(r, tier):
             out.append(mk_route(rt, b.encode('utf-8'), []))
     for rt in routes:
         out.append(mk_route(rt, COOKIE_SRC, []))
+    # bodies whose minified form is 0, 1 or 2 bytes LARGER than the source, behind every kind of first line
+    bodies = ['EPSILON=1e-5', 'for a,in b:0', 'x=1..real', 'x=1e-5;y=1e-6', 'a=1', 'x', "s=''", 'if a:\n\tpass', 'x=0x10', 'def f():return 1e-7']
+    firsts = ['', '#!/usr/bin/env python3\n', '#!/usr/bin/python\r\n', '#!/usr/bin/python\r', '#!/usr/bin/env python3\n\n', '# comment\n', '#!/opt/caf\u00e9/python\n']
+    k = 0
+    for b in bodies:
+        for f in firsts:
+            for nl in ('', '\n'):
+                k += 1
+                out.append(mk_route(routes[k % len(routes)], (f + b + nl).encode('utf-8'), [] if k % 3 else ['--no-preserve-shebang']))
+    for sb in ('#!/bin/sh', '#!/bin/sh\n', '#!/bin/sh\r\n', '#!x'):
+        for rt in routes[:3]:
+            out.append(mk_route(rt, sb.encode(), []))
     for s in ['latin1', 'tiny', 'str']:
         for rt in routes:
             out.append(mk_route(rt, SOURCES[s], [], env_force='1'))
